@@ -154,7 +154,8 @@ func (P) Gen(rng *sim.Rng, tier string) *harness.Case {
 					if rng.Chance(0.35) {
 						mangle = rng.Range(1, 10)
 					}
-					ops = append(ops, harness.Op{K: "fwrite", A: pick(cfg.FileM), N: uint64(mangle), E: rng.Intn(10000), F: rng.Chance(0.7)})
+					// (M == 1: the new content is written to a temporary file that is then renamed over the watched name)
+					ops = append(ops, harness.Op{K: "fwrite", A: pick(cfg.FileM), N: uint64(mangle), E: rng.Intn(10000), F: rng.Chance(0.7), M: uint64(rng.Intn(5) / 4)})
 				}
 			}
 		}
@@ -707,6 +708,15 @@ func (P) Exec(c *harness.Case) *harness.Outcome {
 			}
 		}
 		wt := simfsnotify.Last()
+		if wt != nil && !wt.Closed() && ev.Name == fsrc.path && !wt.Watching(fsrc.path) {
+			if _, err := os.Lstat(fsrc.path); err == nil {
+				o.Fail("C18.file-source-holds-no-watch", step, "the file datasource is running and its file exists, but it holds no watch on it: the %v event that is due now (and every later one) will never reach it", ev.Op)
+				return false
+			}
+		}
+		if wt != nil && ev.Op == simfsnotify.Remove && ev.Name != "" {
+			wt.Drop(ev.Name) // the watch goes with the inode
+		}
 		for i := 0; i < dup; i++ {
 			if wt == nil || wt.Closed() {
 				break
@@ -729,7 +739,13 @@ func (P) Exec(c *harness.Case) *harness.Outcome {
 				return false
 			}
 			// what the source does on an event: (re)read the file as it is NOW and hand it to its handler
-			if received && ev.Op == simfsnotify.Write {
+			replaced := false
+			if ev.Op == simfsnotify.Remove {
+				// (a removal announced while a file exists under the watched name: the file was replaced)
+				_, err := os.Lstat(fsrc.path)
+				replaced = err == nil
+			}
+			if received && (ev.Op == simfsnotify.Write || replaced) {
 				o.Probe("file_converged")
 				if fsrc.dec && !(fsrc.st.has && string(fsrc.st.last) == string(fsrc.content)) {
 					fsrc.st.last, fsrc.st.has = append([]byte{}, fsrc.content...), true
@@ -869,6 +885,19 @@ func (P) Exec(c *harness.Case) *harness.Outcome {
 			payload, decodable, _ := mangle(cfg.FileM, b, op.N, op.E)
 			if len(payload) == 0 || string(payload) == "null" {
 				list, described = nil, nil
+			}
+			if op.M == 1 {
+				// replaced atomically: the watch is on the inode that has just lost its last name, which inotify
+				// announces as the removal of the watched file (and drops the watch)
+				_ = os.WriteFile(fsrc.path+".tmp", payload, 0o644)
+				_ = os.Rename(fsrc.path+".tmp", fsrc.path)
+				fsrc.content, fsrc.dec, fsrc.list, fsrc.desc = payload, decodable, list, described
+				fsrc.pending = append(fsrc.pending, simfsnotify.Event{Name: fsrc.path, Op: simfsnotify.Remove})
+				o.Fault("file_replaced_by_a_rename_over_it")
+				if !deliverEvent(step, 1) {
+					return o
+				}
+				break
 			}
 			_ = os.WriteFile(fsrc.path, payload, 0o644)
 			fsrc.content, fsrc.dec, fsrc.list, fsrc.desc = payload, decodable, list, described
